@@ -135,5 +135,10 @@ func enumerated() []arith.Case {
 	return out
 }
 
-func TestC01(t *testing.T)       { core.RunPre(t, "C01", enumerated(), gen, check) }
-func TestC01Replay(t *testing.T) { core.Replay(t, "C01", check) }
+func TestC01(t *testing.T)       { core.RunPre(t, "C01", enumerated(), gen, checkDiff) }
+func TestC01Replay(t *testing.T) { core.Replay(t, "C01", checkDiffAll) }
+
+// the model check followed by the differential comparison with Python's decimal module
+// (one case in 2 during the search, every case on replay)
+var checkDiff = arith.WithDifferential(check, arith.DiffOpts{Value: true}, 2)
+var checkDiffAll = arith.WithDifferential(check, arith.DiffOpts{Value: true}, 1)
